@@ -15,27 +15,44 @@ From PyOrb.proofs Require Import P_NodeTime.
 Import ListNotations.
 Open Scope Z_scope.
 
-(* if get_last_an_time returns tick r: r is not later than the query tick, |z(r)| <= 1 km, and r lies
-   in a sub-bracket [a,b] of one 10-minute grid cell before the query across which z goes from
-   negative (at a) to positive (at b): an ascending crossing *)
+(* the search loop of get_last_an_time (before the final Newton step): if it ends at tick r, then r is
+   not later than the query tick, |z(r)| <= 1 km, and r lies in a sub-bracket [a,b] of one 10-minute
+   grid cell before the query across which z goes from negative (at a) to positive (at b): an
+   ascending crossing; when z(r) < 0 the upper end even has z(b) >= 1 km *)
 Theorem C11_node_post : forall (z : Z -> Q) (d : Z), 0 < d ->
   forall fuel1 fuel2 t r m,
   last_an z d fuel1 fuel2 t = Ret r m ->
   r <= t /\ (Qabs (z r) <= 1)%Q /\
   exists k, 0 <= k /\
-    exists a b, t - (k + 1) * d <= a /\ a <= r <= b /\ b <= t - k * d /\ a < b /\ (z a < 0)%Q /\ (0 < z b)%Q.
+    exists a b, t - (k + 1) * d <= a /\ a <= r <= b /\ b <= t - k * d /\ a < b /\ (z a < 0)%Q /\ (0 < z b)%Q /\
+                ((z r < 0)%Q -> (1 <= z b)%Q).
 Proof. exact last_an_post. Qed.
 Print Assumptions C11_node_post.
+
+(* the returned value (fix 2488c71: one Newton step `t - round(z/vz * 1e6) us` from the loop result r0,
+   `shift` being the oracle for that rounded quotient): it is the refinement of a loop result with the
+   post-condition above, one more get_position call was made, and it is still not later than the
+   query time provided the step moves back from z >= 0 and, from z < 0, does not pass a later tick
+   where z >= 1 km *)
+Theorem C11_node_refined : forall u (zw : Z -> Q) (shift : Z -> Z) fuel1 fuel2 t r n,
+  (forall x, (0 <= zw x)%Q -> 0 <= shift x) ->
+  (forall x b, (zw x < 0)%Q -> x < b -> (1 <= zw b)%Q -> refine u shift x <= to_res u b) ->
+  get_last_an_time u zw shift fuel1 fuel2 t = Ret r n ->
+  r <= to_res u (to_work u t) /\
+  exists r0 m, last_an zw (ten_minutes (work_unit u)) fuel1 fuel2 (to_work u t) = Ret r0 m /\
+               r = refine u shift r0 /\ n = S m /\ r0 <= to_work u t /\ (Qabs (zw r0) <= 1)%Q.
+Proof. exact refined_not_late. Qed.
+Print Assumptions C11_node_refined.
 
 (* termination, for every time representation: after the unit guard the loop works in ms, us or ns
    (m and s arguments and datetimes are converted to us); if z changes by at most K <= 1 km per tick
    (8 km/s * tick <= 1 km, i.e. tick <= 1/8 s) and some 10-minute grid point k steps before the query
    has z > 0 with z < 0 ten minutes earlier, the call ends within k stepping iterations and 41 halvings *)
-Theorem C11_node_terminates : forall u (zw : Z -> Q) (K : Q) (k t : Z),
+Theorem C11_node_terminates : forall u (zw : Z -> Q) (shift : Z -> Z) (K : Q) (k t : Z),
   (K <= 1)%Q -> (forall x : Z, (zw (x + 1)%Z - zw x <= K)%Q) -> 0 <= k ->
   let d := ten_minutes (work_unit u) in
   (0 < zw (to_work u t - k * d)%Z)%Q -> (zw (to_work u t - (k + 1) * d)%Z < 0)%Q ->
-  get_last_an_time u zw (Z.to_nat k) 41 t <> OutOfFuel.
+  get_last_an_time u zw shift (Z.to_nat k) 41 t <> OutOfFuel.
 Proof. exact get_last_an_time_terminates. Qed.
 Print Assumptions C11_node_terminates.
 
@@ -50,11 +67,11 @@ Print Assumptions C11_bisect_terminates.
 
 (* why the unit guard (fix e2cf667) is needed: WITHOUT the conversion, for a datetime64[s] argument and
    the line z = 7 km/s * t + 3 km (inside the class |dz/dt| <= 8 km/s) the loop never exits, for every
-   fuel; WITH the conversion the same line, seen in microsecond ticks, gives a result after 13 calls *)
+   fuel; WITH the conversion the same line, seen in microsecond ticks, gives the crossing (-3/7 s) after 14 calls *)
 Theorem C11_unit_guard_needed :
   (forall fuel1 fuel2, get_last_an_time_before_fix U_s z_line_s fuel1 fuel2 300 = OutOfFuel) /\
   (forall s, (z_line_us (s * 1000000) == z_line_s s)%Q) /\
-  get_last_an_time U_s z_line_us 0 41 300 = Ret (-292968) 13.
+  get_last_an_time U_s z_line_us shift_line_us 0 41 300 = Ret (-428571) 14.
 Proof.
   split; [exact no_conversion_never_returns|]. split; [exact z_line_same_line | exact with_conversion_returns].
 Qed.
